@@ -1102,3 +1102,9 @@ fn get_checked_nsec3(
     // All check pass, return the NSEC3 record and the owner hash.
     Ok(Some((nsec3.clone(), ownerhash)))
 }
+
+// Native tests for the private items of this module live outside the repository.
+#[cfg(all(test, nlnetlabs_domain_verif))]
+mod verif_native {
+    include!("/verif/native/incrate/validator_nsec.rs");
+}
